@@ -286,6 +286,8 @@ pub enum Action {
     Teardown { perm: u64, stabilise_between: bool },
     /// drop all clones of the state while handles are alive
     DropState,
+    /// action of one of the smaller engines (expert, map, limits)
+    X(crate::xplan::XAct),
 }
 
 #[derive(Serialize, Deserialize, Clone, Debug, PartialEq, Default)]
